@@ -53,7 +53,9 @@ def run_check(pid, root, tier="quick", runs=None, workers=4, seed=0, timeout=150
     except subprocess.TimeoutExpired as e:
         out, code = (e.stdout or "") + "\nTIMEOUT", 124
     keys = re.findall(r"^violation seed=(-?\d+) key=(\S+)", out, re.M)
-    return {"exit": code, "violations": [k for _, k in keys], "seeds": [int(s) for s, _ in keys], "wall_s": round(time.time() - t0, 1),
+    vr = re.search(r"violating_runs=(\d+)", out)
+    nr = re.search(r"\] runs=(\d+)", out)
+    return {"exit": code, "violating_runs": int(vr.group(1)) if vr else None, "runs": int(nr.group(1)) if nr else None, "violations": [k for _, k in keys], "seeds": [int(s) for s, _ in keys], "wall_s": round(time.time() - t0, 1),
             "harness_error": "HARNESS-ERROR" in out, "tail": out.strip().splitlines()[-1:] if out.strip() else []}
 
 
@@ -139,6 +141,38 @@ def do_seeded(a):
 
 ALL_PIDS = ["C01", "C04", "C05", "C11", "C12", "C13", "C14", "C15", "C17", "C20"]
 
+# which worlds execute code of which library file (directly or through the runners); used by `benign --relevant`
+USERS = {
+    "wavefunction.py": ["C01", "C04", "C12", "C14", "C15", "C20"],
+    "utils.py": ["C04", "C05", "C11", "C12", "C13", "C14", "C17"],
+    "measurements/": ["C04", "C11", "C13", "C14", "C15", "C20"],
+    "circuits/_circuit.py": ["C01", "C04", "C05", "C14", "C15", "C20"],
+    "circuits/_gates.py": ["C01", "C04", "C05", "C14", "C15", "C20"],
+    "circuits/_builtin_gates.py": ["C01", "C04", "C05", "C14", "C15", "C20"],
+    "circuits/_unitary_tools.py": ["C01", "C04", "C05", "C14", "C15", "C20"],
+    "circuits/_wavefunction_operations.py": ["C01", "C04", "C14", "C20"],
+    "circuits/_serde.py": ["C05", "C14", "C15", "C20"],
+    "circuits/_itertools.py": ["C13"],
+    "circuits/layouts.py": ["C11"],
+    "operators/": ["C04", "C11", "C15", "C20"],
+    "api/": ["C01", "C04", "C13", "C14", "C15", "C20"],
+    "runners/": ["C01", "C04", "C13", "C14", "C15", "C20"],
+    "estimation/": ["C15"],
+    "distributions/": ["C04", "C13", "C14", "C17", "C20"],
+}
+
+
+def relevant_pids(patch_path):
+    files = re.findall(r"^\+\+\+ b/src/orquestra/quantum/(\S+)", open(patch_path).read(), re.M)
+    out = set()
+    for f in files:
+        hit = [v for k, v in USERS.items() if f == k or (k.endswith("/") and f.startswith(k))]
+        if not hit:
+            return list(ALL_PIDS)
+        for v in hit:
+            out.update(v)
+    return [p_ for p_ in ALL_PIDS if p_ in out] or list(ALL_PIDS)
+
 
 def do_benign(a):
     """Behaviour-preserving changes (/verif/benign/<id>/patch.diff): every check must stay silent (exit 0)."""
@@ -154,8 +188,14 @@ def do_benign(a):
             if r.returncode != 0:
                 return {"id": d, "pid": "-", "error": "patch does not apply: " + r.stderr[:300]}
             out = {"id": d, "pid": "all", "checks": {}}
-            for pid in ALL_PIDS:
+            pids = relevant_pids(os.path.join(base, d, "patch.diff")) if getattr(a, "relevant", False) else ALL_PIDS
+            if os.path.exists(os.path.join(VERIF, "mutants", "results-benign.json")) and getattr(a, "relevant", False):
+                # keep earlier results of the checks not re-run
+                old_ = {r["id"]: r for r in json.load(open(os.path.join(VERIF, "mutants", "results-benign.json")))["results"]}
+                out["checks"].update(old_.get(d, {}).get("checks", {}))
+            for pid in pids:
                 out["checks"][pid] = run_check(pid, wt, a.tier, a.runs, workers=a.workers, seed=a.seed)
+            out["checked_now"] = pids
             out["silent"] = all(c["exit"] == 0 for c in out["checks"].values())
             return out
         finally:
@@ -166,7 +206,7 @@ def do_benign(a):
     os.makedirs(os.path.join(VERIF, "mutants"), exist_ok=True)
     path = os.path.join(VERIF, "mutants", "results-benign.json" if not a.seed else f"results-benign-seed{a.seed}.json")
     merged = {}
-    if a.only and os.path.exists(path):
+    if (a.only or getattr(a, "relevant", False)) and os.path.exists(path):
         merged = {r["id"]: r for r in json.load(open(path))["results"]}
     for r in results:
         merged[r["id"]] = r
@@ -226,6 +266,7 @@ def main():
         p.add_argument("--workers", type=int, default=4)
         p.add_argument("--suite", action="store_true", help="also run the pinned test suite against each mutant")
         p.add_argument("--also", action="store_true")
+        p.add_argument("--relevant", action="store_true", help="benign: only the checks whose worlds execute the files the patch touches")
         p.add_argument("--seed", type=int, default=0, help="VERIF_SEED block for the checks (results for seed != 0 go to results-<kind>-seed<N>.json)")
     p = sub.add_parser("suite")
     p.add_argument("patch")
